@@ -19,14 +19,33 @@ def nu_of_wav_micron(wav):
     return C_M_S / (np.asarray(wav, float) * 1e-6)
 
 
-def write_conf(d, aperture_dependent, logd_step=0.1, version=1, name='verif', length_subdir=0):
+def write_conf(d, aperture_dependent, logd_step=0.1, version=1, name='verif', length_subdir=0, style=None):
+    """models.conf.  The file is a list of `key = value` lines; comment lines, blank lines, the order of the keys and the
+    amount of white space are free, so the writer rotates through three layouts (chosen from its arguments, hence the same
+    for the same package) unless one is asked for."""
+    if style is None:
+        style = (len(os.path.basename(os.path.normpath(d))) + version + int(bool(aperture_dependent)) + int(round(float(logd_step) * 1000))) % 3
+    items = [('name', name), ('length_subdir', '%d' % length_subdir), ('aperture_dependent', 'yes' if aperture_dependent else 'no'),
+             ('logd_step', repr(float(logd_step)))]
+    if version != 1:
+        items.append(('version', '%d' % version))
     with open(os.path.join(d, 'models.conf'), 'w') as f:
-        f.write("name = %s\n" % name)
-        f.write("length_subdir = %d\n" % length_subdir)
-        f.write("aperture_dependent = %s\n" % ('yes' if aperture_dependent else 'no'))
-        f.write("logd_step = %r\n" % float(logd_step))
-        if version != 1:
-            f.write("version = %d\n" % version)
+        if style == 0:
+            for k, v in items:
+                f.write("%s = %s\n" % (k, v))
+        elif style == 1:
+            f.write("# model package written for the verification harness\n\n")
+            for k, v in reversed(items):
+                f.write("%-20s =   %s  \n" % (k, v))
+                f.write("\n")
+            f.write("# end\n")
+        else:
+            vfirst = [it for it in items if it[0] == 'version'] + [it for it in items if it[0] != 'version']
+            for k, v in vfirst:
+                if k == 'logd_step':
+                    v = '%.6f' % float(logd_step) if float('%.6f' % float(logd_step)) == float(logd_step) else v
+                f.write("%s\t=\t%s\n" % (k, v))
+            f.write("#logd_step = 99\n")
 
 
 def write_parameters(d, names, columns, order=None, pad=30, gz=False, name_pos=0):
